@@ -93,7 +93,10 @@ class Verb:
 class Eq:
     """lhs: Term (kind 'v'); ctx: expression over PH0..; leaves: list of Term/Lit/Verb."""
 
-    def __init__(self, lhs, ctx, leaves, raw=False):
+    def __init__(self, lhs, ctx, leaves, raw=False, verbatim=None):
+        # verbatim: None | 'inline' | 'fenced' - the statement is written as verbatim Python code (`...` or a fenced block) that
+        # assigns `lhs` from `ctx` through the storage (self._NAME[t+k]); it creates no symbols and runs after all ordinary equations
+        self.verbatim = verbatim
         self.lhs, self.leaves = lhs, list(leaves)
         self.tree = ast.parse(ctx, mode='eval')
         # raw: keep the context exactly as spelled (redundant parentheses, blanks before a call's bracket, no blanks around
@@ -119,6 +122,11 @@ class Eq:
         return _PH.sub(sub, self.ctx)
 
     def text(self):
+        if self.verbatim:
+            def cell(t):
+                return 'self._%s[t%s]' % (t.name, '' if t.off == 0 else '%+d' % t.off)
+            code = '%s = %s' % (cell(self.lhs), _PH.sub(lambda m: cell(self.leaves[int(m.group(1))]) if isinstance(self.leaves[int(m.group(1))], Term) else self.leaves[int(m.group(1))].text(), self.ctx))
+            return '`%s`' % code if self.verbatim == 'inline' else '```\n%s\n```' % code
         return '%s = %s' % (self.lhs.text(), self.rhs_text())
 
     def placeholders_in_order(self):
@@ -150,6 +158,8 @@ class Program:
     def names_in_order(self):
         seen = []
         for e in self.eqs:
+            if getattr(e, 'verbatim', None):
+                continue
             for t in e.terms_in_text_order():
                 if t.name not in seen:
                     seen.append(t.name)
@@ -168,7 +178,7 @@ class Program:
         return out
 
     def lags_leads(self):
-        offs = [t.off for e in self.eqs for t in e.terms_in_text_order() if isinstance(t.off, int)]
+        offs = [t.off for e in self.eqs if not getattr(e, 'verbatim', None) for t in e.terms_in_text_order() if isinstance(t.off, int)]
         return (max([0] + [-o for o in offs]), max([0] + offs))
 
     def consistent(self):
@@ -183,7 +193,9 @@ class Program:
     def ordered_eqs(self):
         """Equations in symbol-list order = order of first textual appearance of their left-hand-side names."""
         order = self.names_in_order()
-        return sorted(self.eqs, key=lambda e: order.index(e.lhs.name))
+        normal = [e for e in self.eqs if not getattr(e, 'verbatim', None)]
+        # verbatim statements follow the ordinary equations, in the order written, each one as often as it is written
+        return sorted(normal, key=lambda e: order.index(e.lhs.name)) + [e for e in self.eqs if getattr(e, 'verbatim', None)]
 
     def ref_eqs(self):
         out = []
@@ -311,6 +323,20 @@ def sl():
         for leaves in SL_LEAVES:
             for rot in range(len(leaves)):
                 yield Program([Eq(Term('Y'), ctx, (leaves[rot:] + leaves[:rot])[:k], raw=True)], 'SL')
+
+
+def vs():
+    """Scripts with whole verbatim statements (inline and fenced), the same statement written once, twice, three times."""
+    K, X, Z, Y = Term('K'), Term('X'), Term('Z'), Term('Y')
+    for form in ('inline', 'fenced'):
+        double = lambda: Eq(K, 'PH0 * 2', [K], verbatim=form)
+        add = lambda: Eq(K, 'PH0 + PH1', [K, X], verbatim=form)
+        for n in (1, 2, 3):
+            yield Program([Eq(Z, 'PH0 + PH1', [K, X])] + [double() for _ in range(n)], 'VS')
+            yield Program([double() for _ in range(n)] + [Eq(Z, 'PH0 + PH1', [K, X])], 'VS')
+            yield Program([add() for _ in range(n)] + [Eq(Z, 'PH0 - PH1', [K, Term('X', 'v', -1)])] + [double()], 'VS')
+        yield Program([double(), Eq(Z, 'PH0 + PH1', [K, X]), double(), Eq(Y, 'PH0 * PH1', [Z, K]), add(), double()], 'VS')
+        yield Program([Eq(Z, 'PH0 + PH1', [K, X]), Eq(K, 'PH0 + 1', [K], verbatim=form), Eq(K, 'PH0  +  1', [K], raw=True, verbatim=form), double(), double()], 'VS')
 
 
 S3_LEAVES = [Term('X'), Term('Y', 'v', -1), Term('a', 'p'), Lit('2')]
